@@ -11,7 +11,7 @@ pub struct Mutant {
     pub frame: usize,
 }
 
-pub const N_CLASSES: u64 = 42;
+pub const N_CLASSES: u64 = 43;
 
 /// Re-serialises all frames after the (unchanged) metadata prefix.
 pub fn reserialize(gs: &mut GenStream) {
@@ -523,6 +523,35 @@ pub fn mutate(gs: &mut GenStream, ch: &mut dyn Chooser, class: u64, fi: usize) -
                 }
             });
             return Some(Mutant { class: "blocksize-field-65536-on-65535-sample-frame", must_reject: true, frame: fi });
+        }
+        42 => {
+            // SEEKTABLE point with an extreme byte offset / sample number / length (the frames stay valid;
+            // only seeking is affected). Needs a stream that carries a seek table.
+            let mut pos = 4usize;
+            let mut found = None;
+            while pos + 4 <= gs.first_frame {
+                let ty = gs.bytes[pos] & 0x7F;
+                let len = ((gs.bytes[pos + 1] as usize) << 16) | ((gs.bytes[pos + 2] as usize) << 8) | gs.bytes[pos + 3] as usize;
+                if ty == 3 && len >= 18 {
+                    found = Some((pos + 4, len / 18));
+                    break;
+                }
+                pos += 4 + len;
+            }
+            let (at, npoints) = found?;
+            let k = ch.below(npoints as u64) as usize;
+            let base = at + 18 * k;
+            let extreme = [u64::MAX, u64::MAX - 1, u64::MAX - 41, 1 << 63, (1 << 63) - 1, u64::MAX >> 1, 1 << 40][ch.below(7) as usize];
+            match ch.below(4) {
+                0 | 1 => gs.bytes[base + 8..base + 16].copy_from_slice(&extreme.to_be_bytes()),
+                2 => {
+                    // sample number: keep it selectable (small) but wrong, or extreme
+                    let v = if ch.below(2) == 0 { ch.below(3) } else { extreme };
+                    gs.bytes[base..base + 8].copy_from_slice(&v.to_be_bytes());
+                }
+                _ => gs.bytes[base + 16..base + 18].copy_from_slice(&[0xFF, 0xFF]),
+            }
+            return Some(Mutant { class: "seektable-point-extreme", must_reject: false, frame: fi });
         }
         _ => {
             // wasted bits at the maximum legal value with data at the rails
